@@ -14,6 +14,7 @@ import (
 
 	"github.com/gobuffalo/plush/v5/ast"
 	"github.com/gobuffalo/plush/v5/helpers/hctx"
+	"github.com/gobuffalo/plush/v5/internal/cyclic"
 )
 
 type ErrUnknownIdentifier struct {
@@ -109,7 +110,13 @@ func (c *compiler) write(bb *strings.Builder, i interface{}) {
 		c.write(bb, *t)
 	case interfaceable:
 		c.write(bb, t.Interface())
-	case string, ast.Printable, bool:
+	case string, bool:
+		bb.Write(unsafeGetBytes(template.HTMLEscaper(t)))
+	case ast.Printable:
+		if cyclic.Contains(t) {
+			// the escaper prints with fmt, which would not come to an end
+			return
+		}
 		bb.Write(unsafeGetBytes(template.HTMLEscaper(t)))
 	case template.HTML:
 		bb.Write(unsafeGetBytes(string(t)))
@@ -366,14 +373,14 @@ func (c *compiler) evalUpdateIndex(left, index, value interface{}) error {
 		case rv.IsNil():
 			err = fmt.Errorf("cannot assign to an entry of a nil map (%T)", left)
 		case index == nil || !reflect.TypeOf(index).AssignableTo(keyType):
-			err = fmt.Errorf("cannot use '%v' (%T) as %s value in map index", index, index, keyType)
+			err = fmt.Errorf("cannot use '%s' (%T) as %s value in map index", show(index), index, keyType)
 		case !reflect.ValueOf(index).Comparable():
-			err = fmt.Errorf("cannot use '%v' (%T) as a map index: the value is not comparable", index, index)
+			err = fmt.Errorf("cannot use '%s' (%T) as a map index: the value is not comparable", show(index), index)
 		case value == nil:
 			// nil is the zero value of the element type
 			rv.SetMapIndex(reflect.ValueOf(index), reflect.Zero(elemType))
 		case !reflect.TypeOf(value).AssignableTo(elemType):
-			err = fmt.Errorf("cannot use '%v' (%T) as %s value in assignment", value, value, elemType)
+			err = fmt.Errorf("cannot use '%s' (%T) as %s value in assignment", show(value), value, elemType)
 		default:
 			rv.SetMapIndex(reflect.ValueOf(index), reflect.ValueOf(value))
 		}
@@ -391,14 +398,14 @@ func (c *compiler) evalUpdateIndex(left, index, value interface{}) error {
 					nv = reflect.Zero(elemType)
 				}
 				if t := nv.Type(); elemType != t && !(elemType.Kind() == reflect.Interface && t.AssignableTo(elemType)) {
-					err = fmt.Errorf("cannot use '%v' (untyped %s constant) as %s value in assignment", value, t, elemType)
+					err = fmt.Errorf("cannot use '%s' (untyped %s constant) as %s value in assignment", show(value), t, elemType)
 				}
 				if err == nil {
 					rv.Index(i).Set(nv)
 				}
 			}
 		} else {
-			err = fmt.Errorf("can't access Slice/Array with a non int Index (%v)", index)
+			err = fmt.Errorf("can't access Slice/Array with a non int Index (%s)", show(index))
 		}
 	default:
 		err = fmt.Errorf("could not index %T with %T", left, index)
@@ -421,16 +428,16 @@ func (c *compiler) evalAccessIndex(left, index interface{}, node *ast.IndexExpre
 		keyType := reflect.TypeOf(index).Kind()
 		if mapKeyType != reflect.Interface &&
 			keyType != mapKeyType {
-			err = fmt.Errorf("cannot use %v (%s constant) as %s value in map index", index, keyType.String(), mapKeyType.String())
+			err = fmt.Errorf("cannot use %s (%s constant) as %s value in map index", show(index), keyType.String(), mapKeyType.String())
 			return nil, err
 		}
 
 		if !reflect.TypeOf(index).AssignableTo(rv.Type().Key()) {
-			return nil, fmt.Errorf("cannot use %v (%T) as %s value in map index", index, index, rv.Type().Key())
+			return nil, fmt.Errorf("cannot use %s (%T) as %s value in map index", show(index), index, rv.Type().Key())
 		}
 
 		if !reflect.ValueOf(index).Comparable() {
-			return nil, fmt.Errorf("cannot use %v (%T) as a map index: the value is not comparable", index, index)
+			return nil, fmt.Errorf("cannot use %s (%T) as a map index: the value is not comparable", show(index), index)
 		}
 
 		val := rv.MapIndex(reflect.ValueOf(index))
@@ -456,7 +463,7 @@ func (c *compiler) evalAccessIndex(left, index interface{}, node *ast.IndexExpre
 				}
 			}
 		} else {
-			err = fmt.Errorf("can't access Slice/Array with a non int Index (%v)", index)
+			err = fmt.Errorf("can't access Slice/Array with a non int Index (%s)", show(index))
 		}
 	default:
 		err = fmt.Errorf("could not index %T with %T", left, index)
@@ -628,7 +635,7 @@ func (c *compiler) arrayOperator(l interface{}, r interface{}, op string) (inter
 
 		elemType := reflect.TypeOf(l).Elem()
 		if t := reflect.TypeOf(r); elemType != t && !(elemType.Kind() == reflect.Interface && t.AssignableTo(elemType)) {
-			err = fmt.Errorf("cannot append '%v' (untyped %s constant) as %s value in assignment", r, t, elemType)
+			err = fmt.Errorf("cannot append '%s' (untyped %s constant) as %s value in assignment", show(r), t, elemType)
 		}
 		if err == nil {
 			return reflect.Append(reflect.ValueOf(l), reflect.ValueOf(r)), nil
@@ -728,6 +735,11 @@ func (c *compiler) floatsOperator(l float64, r float64, op string) (interface{},
 }
 
 func (c *compiler) stringsOperator(l string, r interface{}, op string) (interface{}, error) {
+	if cyclic.Contains(r) {
+		// fmt would not come to an end
+		return nil, fmt.Errorf("unable to operate (%s) on %T and %T: the right operand contains itself", op, l, r)
+	}
+
 	rr := fmt.Sprint(r)
 
 	switch op {
@@ -846,7 +858,7 @@ func (c *compiler) evalCallExpression(node *ast.CallExpression) (interface{}, er
 
 			actualT := ar.Type()
 			if !actualT.AssignableTo(expectedT) {
-				return nil, fmt.Errorf("%+v (%T) is an invalid argument for %s at pos %d: expected (%s)", v, v, node.Function.String(), pos, expectedT)
+				return nil, fmt.Errorf("%s (%T) is an invalid argument for %s at pos %d: expected (%s)", cyclic.Show("%+v", v), v, node.Function.String(), pos, expectedT)
 			}
 
 			args = append(args, ar)
@@ -892,18 +904,18 @@ func (c *compiler) evalCallExpression(node *ast.CallExpression) (interface{}, er
 		}
 
 		if len(args) > rtNumIn {
-			return nil, fmt.Errorf("%s too many arguments (%d for %d) - %+v", node.String(), len(args), rtNumIn, args)
+			return nil, fmt.Errorf("%s too many arguments (%d for %d) - %s", node.String(), len(args), rtNumIn, showArgs(args))
 		}
 
 		if len(args) < rtNumIn {
-			return nil, fmt.Errorf("%s too few arguments (%d for %d) - %+v", node.String(), len(args), rtNumIn, args)
+			return nil, fmt.Errorf("%s too few arguments (%d for %d) - %s", node.String(), len(args), rtNumIn, showArgs(args))
 		}
 	} else {
 		// Variadic func
 		nodeArgs := node.Arguments
 		nodeArgsLen := len(nodeArgs)
 		if nodeArgsLen < rtNumIn-1 {
-			return nil, fmt.Errorf("%s too few arguments (%d for %d) - %+v", node.String(), len(args), rtNumIn, args)
+			return nil, fmt.Errorf("%s too few arguments (%d for %d) - %s", node.String(), len(args), rtNumIn, showArgs(args))
 		}
 
 		var pos int
@@ -925,7 +937,7 @@ func (c *compiler) evalCallExpression(node *ast.CallExpression) (interface{}, er
 
 			actualT := ar.Type()
 			if !actualT.AssignableTo(expectedT) {
-				return nil, fmt.Errorf("%+v (%T) is an invalid argument for %s at pos %d: expected (%s)", v, v, node.Function.String(), pos, expectedT)
+				return nil, fmt.Errorf("%s (%T) is an invalid argument for %s at pos %d: expected (%s)", cyclic.Show("%+v", v), v, node.Function.String(), pos, expectedT)
 			}
 
 			args = append(args, ar)
@@ -948,7 +960,7 @@ func (c *compiler) evalCallExpression(node *ast.CallExpression) (interface{}, er
 
 			actualT := ar.Type()
 			if !actualT.AssignableTo(expectedT) {
-				return nil, fmt.Errorf("%+v (%T) is an invalid argument for %s at pos %d: expected (%s)", v, v, node.Function.String(), pos, expectedT)
+				return nil, fmt.Errorf("%s (%T) is an invalid argument for %s at pos %d: expected (%s)", cyclic.Show("%+v", v), v, node.Function.String(), pos, expectedT)
 			}
 
 			args = append(args, ar)
@@ -1316,6 +1328,25 @@ func calleeRootName(e ast.Expression) (string, bool) {
 		return calleeRootName(t.Function)
 	}
 	return "", false
+}
+
+// show prints a value inside an error message. A value that contains itself
+// is described by its type: fmt would print it until the stack is exhausted.
+func show(v interface{}) string {
+	return cyclic.Show("%v", v)
+}
+
+// showArgs prints the arguments collected for a call the way fmt prints a
+// []reflect.Value, by the values they hold.
+func showArgs(args []reflect.Value) string {
+	vals := make([]interface{}, len(args))
+	for i, a := range args {
+		if a.IsValid() && a.CanInterface() {
+			vals[i] = a.Interface()
+		}
+	}
+
+	return cyclic.Show("%+v", vals)
 }
 
 func unsafeGetBytes(s string) []byte {
